@@ -175,7 +175,16 @@ def rand_sim(rnd, depth, k):
             attrs.append(rand_control(rnd, pnames))
         else:
             attrs.append(rand_option(rnd, len(attrs)))
-    tbk = rnd.choice(["ok", "ok", "ok", "ok", "noport", "twoports", "busport"])
+    # the same (unnamed) analysis object used at the top level AND inside a later sweep / Monte-Carlo
+    for j, a in enumerate(list(attrs)):
+        if a["k"] in ("sweep", "monte") and rnd.random() < 0.5:
+            earlier = [x for x in attrs[:j] if x["k"] in ("op", "tran", "custom") and not x["hasname"]]
+            if earlier:
+                src = earlier[0]
+                ref = dict(src)
+                ref["same_object_as"] = attrs.index(src)
+                a["inner"] = a["inner"] + [ref]
+    tbk = rnd.choice(["ok", "ok", "ok", "ok", "ok", "noport", "twoports", "busport", "bundleport"])
     return {"tbname": f"tb{k}", "tb_ok": tbk == "ok", "tbkind": tbk, "attrs": attrs, "style": rnd.choice(["proc", "class", "methods"])}
 
 
@@ -236,6 +245,8 @@ def mk_attr_kwargs(h, hs, a, sigs):
 
 
 def mk_attr(h, hs, a, sigs):
+    if "same_object_as" in a and a["same_object_as"] in sigs.get("_built", {}):
+        return sigs["_built"][a["same_object_as"]]
     cls, kw = mk_attr_kwargs(h, hs, a, sigs)
     return cls(**kw)
 
@@ -246,8 +257,10 @@ def build_sim(h, hs, S, shared_tb=None):
         tb = shared_tb
     else:
         tb = h.Module(name=S["tbname"])
-        if S["tbkind"] in ("ok", "twoports"):
+        if S["tbkind"] in ("ok", "twoports", "bundleport"):
             tb.VSS = h.Port()
+        if S["tbkind"] == "bundleport":
+            tb.inp = h.Diff(port=True)          # one scalar port until elaboration flattens the bundle into two more
         if S["tbkind"] == "twoports":
             tb.EXTRA = h.Port()
         if S["tbkind"] == "busport":
@@ -255,15 +268,21 @@ def build_sim(h, hs, S, shared_tb=None):
         tb.sa = h.Signal()
         tb.sb = h.Signal()
     sigs["sa"], sigs["sb"] = tb.get("sa"), tb.get("sb")
+    sigs["_built"] = {}
     if S["style"] == "proc":
-        return hs.Sim(tb=tb, attrs=[mk_attr(h, hs, a, sigs) for a in S["attrs"]])
+        built = []
+        for j, a in enumerate(S["attrs"]):
+            obj = mk_attr(h, hs, a, sigs)
+            sigs["_built"][j] = obj
+            built.append(obj)
+        return hs.Sim(tb=tb, attrs=built)
     if S["style"] == "methods":
         sim = hs.Sim(tb=tb)
         meth = {"op": "op", "dc": "dc", "ac": "ac", "tran": "tran", "noise": "noise", "custom": "customanalysis", "sweep": "sweepanalysis", "monte": "montecarlo",
                 "save": "save", "meas": "meas", "include": "include", "lib": "lib", "param": "param", "literal": "literal", "options": "options"}
-        for a in S["attrs"]:
+        for j, a in enumerate(S["attrs"]):
             cls, kw = mk_attr_kwargs(h, hs, a, sigs)
-            getattr(sim, meth[a["k"]])(**kw)
+            sigs["_built"][j] = getattr(sim, meth[a["k"]])(**kw)
         return sim
     # class style: the class-body key becomes the attribute's name
     body = {"tb": tb}
@@ -410,7 +429,8 @@ def run_group(args):
 
 def strip(S, group):
     def clean(a):
-        b = {k: v for k, v in a.items() if k != "py"}
+        b = {k: v for k, v in a.items() if k not in ("py", "same_object_as")}
+        b["reused"] = "same_object_as" in a
         b["sweep"] = {k: v for k, v in a["sweep"].items() if k != "py"}
         b["inner"] = [clean(x) for x in a["inner"]]
         return b
@@ -464,6 +484,17 @@ def gen_groups(tier, seed):
                 if s["style"] == "class":
                     class_style_adjust(s)
         groups.append({"sims": sims, "share_tb": share, "as_list": aslist})
+    # systematic: one unnamed analysis object used at the top level and inside later sweep / Monte-Carlo analyses
+    for j in range(12):
+        first = attr(["op", "tran", "custom"][j % 3])
+        if first["k"] == "tran":
+            first["x1"], first["py"] = dec(exact(NUMS[j % len(NUMS)])), {"x1": NUMS[j % len(NUMS)]}
+        ref = dict(first)
+        ref["same_object_as"] = 0
+        sw = attr("sweep", var="vdd", sweep=rand_sweep(rnd), inner=[ref] + ([attr("op")] if j % 2 else []))
+        mc = attr("monte", n=3 + j, inner=[attr("op"), dict(ref)])
+        S = {"tbname": f"tbr{j}", "tb_ok": True, "tbkind": "ok", "attrs": [first, sw, attr("op"), mc][: 3 + (j % 2)], "style": ["proc", "methods"][j % 2]}
+        groups.append({"sims": [S], "share_tb": False, "as_list": False})
     return groups
 
 
@@ -480,6 +511,8 @@ def feats(S):
             f.add("nested_depth_%d" % d)
         if a["k"] in ("op", "dc", "ac", "tran", "noise", "sweep", "monte", "custom") and not a["hasname"]:
             f.add("unnamed_analysis")
+        if a.get("reused"):
+            f.add("analysis_object_reused")
         if a["hasname"] and a["name"].startswith("Analysis") and a["name"][8:].isdigit():
             f.add("user_name_like_generated")
         for x in a["inner"]:
@@ -530,6 +563,8 @@ def run(tier, seed, replay_file=None):
             o.cover["style_" + s["style"]] = o.cover.get("style_" + s["style"], 0) + 1
         if not e["sim"]["tb_ok"]:
             o.cover["bad_testbench"] = o.cover.get("bad_testbench", 0) + 1
+        for s in g["sims"]:
+            o.cover["tb_" + s["tbkind"]] = o.cover.get("tb_" + s["tbkind"], 0) + 1
         if any(x.startswith("attr_") and x[5:] in ("op", "dc", "ac", "tran", "noise", "sweep", "monte", "custom") for x in fs):
             nt += 1
         ok, clause = verdicts[i]
@@ -539,7 +574,7 @@ def run(tier, seed, replay_file=None):
     o.distinct_nontrivial = nt
     o.required_cover = ["attr_" + k for k in ("op", "dc", "ac", "tran", "noise", "sweep", "monte", "custom", "save", "meas", "include", "lib", "param", "literal", "options")] + \
                        ["save_" + k for k in ("all", "none", "signal", "signals", "name", "names")] + ["sweep_linear", "sweep_log", "sweep_points", "nested_depth_2",
-                        "unnamed_analysis", "group_list", "shared_testbench", "style_proc", "style_class", "style_methods", "bad_testbench"]
+                        "unnamed_analysis", "group_list", "shared_testbench", "style_proc", "style_class", "style_methods", "bad_testbench", "analysis_object_reused", "tb_bundleport"]
     rnd = random.Random(seed)
     for i in rnd.sample(range(len(evs)), 2):
         o.samples.append({"sim": {"tbname": evs[i]["sim"]["tbname"], "attrs": [{k: a[k] for k in ("k", "name", "hasname", "text", "form")} for a in evs[i]["sim"]["attrs"]]},
